@@ -57,6 +57,12 @@ Section Generic.
     if failed (res_of x) then (s, res_of x, []) else x.
   Definition via_cached := via_msg.
 
+  (* a transaction whose messages also write process memory (the oracle's package-level aggregator context): baseapp
+     drops the store cache of a failed tx, nothing restores the memory. [mem cls] says which write classes are memory. *)
+  Definition via_tx_mem (mem : string -> bool) (p : script) (s : S) : S * outcome * list string :=
+    let x := run p s in
+    if failed (res_of x) then (st_of x, res_of x, filter mem (tr_of x)) else x.
+
   Definition atomic (exec : script -> S -> S * outcome * list string) (p : script) : Prop :=
     forall s, failed (res_of (exec p s)) = true -> st_of (exec p s) = s.
   Definition atomic_at (exec : script -> S -> S * outcome * list string) (p : script) (s : S) : Prop :=
@@ -373,13 +379,26 @@ Definition nst_balance_change : script facts :=
     is0 "fail.any";
     touch "oracle/nst_staker" ].
 
+(* x/oracle CreatePrice transactions (1-3 messages) through the real DeliverTx: each counted message fills the
+   in-memory aggregator context (FillPrice, caches). fail.idx = index of the message the tx failed at (-1 none), as
+   reported by baseapp; n = number of messages. Class "oracle-mem" = the dump of the process memory. *)
+Definition is_mem (cls : string) : bool := String.prefix "oracle-mem" cls.
+(* fail.ignored = 1: the failing message was rejected with "price proposal ignored" - the filter stage has already
+   recorded the message's nonce in memory when the aggregation stage refuses it *)
+Definition oracle_msg (i : Z) : script facts :=
+  [ Check (fun s => negb ((fget "fail.idx" s =? i) && (fget "fail.ignored" s =? 0)));
+    Write "oracle-mem" (fun s => i <? fget "n" s) (fun s => s);
+    Check (fun s => negb (fget "fail.idx" s =? i)) ].
+Definition oracle_tx : script facts :=
+  [ is1 "ante.ok" ] ++ oracle_msg 0 ++ oracle_msg 1 ++ oracle_msg 2.
+
 (* ---- entry points and how the code wraps them ---- *)
-Inductive mode := MPrecompile | MCached | MMsg.
+Inductive mode := MPrecompile | MCached | MMsg | MTxMem.
 Inductive op_kind :=
 | DepositLST | WithdrawLST | DepositNST | WithdrawNST | Delegate | Undelegate | Associate | Dissociate
 | RegisterToken | UpdateToken | RegisterClientChain
 | Slash | MsgRegisterOperator | MsgOptIn | MsgOptOut | EndBlockUndelegation | NSTBalanceChange
-| AvsRegister | AvsDeregister | AvsOptIn | AvsOptOut | AvsCreateTask.
+| AvsRegister | AvsDeregister | AvsOptIn | AvsOptOut | AvsCreateTask | OracleTx.
 
 Definition script_of (k : op_kind) : script facts :=
   match k with
@@ -395,6 +414,7 @@ Definition script_of (k : op_kind) : script facts :=
   | NSTBalanceChange => nst_balance_change
   | AvsRegister => avs_register | AvsDeregister => avs_deregister
   | AvsOptIn => avs_opt_in | AvsOptOut => avs_opt_out | AvsCreateTask => avs_create_task
+  | OracleTx => oracle_tx
   end.
 
 (* the wrapper the (repaired) code puts around each entry point *)
@@ -407,6 +427,7 @@ Definition mode_of (k : op_kind) : mode :=
   | EndBlockUndelegation => MCached
   | NSTBalanceChange => MCached                                       (* fix-c09-nst-balance-change-atomic *)
   | AvsRegister | AvsDeregister | AvsOptIn | AvsOptOut | AvsCreateTask => MPrecompile
+  | OracleTx => MTxMem                                                (* store reverted, memory not *)
   end.
 
 (* locals computed once from the pre-state *)
@@ -422,6 +443,7 @@ Definition exec (m : mode) (p : script facts) (s : facts) : facts * outcome * li
   | MPrecompile => via_precompile p s
   | MCached => via_cached p s
   | MMsg => via_msg p s
+  | MTxMem => via_tx_mem is_mem p s
   end.
 
 (* ------------------------------------------------------------------------------------------ *)
@@ -439,9 +461,10 @@ Record call := mkCall {
   c_result : result;
   c_changed : list string }.
 
-(* block-processing observation: number of items, index of the item made to fail, the key classes that
-   differ between (run with all items) and (run with the failing item taken off the work list), after the
-   failing item's own record has been removed from both; and whether the run reported a panic *)
+(* block-processing observation: number of items, number of items made to fail (at arbitrary positions, at their
+   first step or half-way), the key classes that differ between (run with all items) and (run with the failing items
+   taken off the work list), after the failing items' own records have been removed from both; and whether the run
+   reported a panic *)
 Record items_obs := mkItems {
   i_n : nat; i_failing : nat; i_diff : list string; i_panic : bool }.
 
@@ -469,7 +492,7 @@ Definition check_call (c : call) : bool :=
 Definition check_case (c : case) : option nat :=
   match c with
   | CCall k => if check_call k then None else Some 0%nat
-  | CItems o => if Nat.ltb (i_failing o) (i_n o) then None else Some 0%nat
+  | CItems o => if Nat.ltb 0 (i_failing o) && Nat.ltb (i_failing o) (i_n o) then None else Some 0%nat
   end.
 
 (* the property itself, on observations only: a reported failure leaves no key changed; a failing item leaves
